@@ -264,6 +264,9 @@ def cubic_spline(
             )
         )
 
+    # Rounding can push the end-points slightly outside [0, 1] (as in the other splines).
+    outputs = torch.clamp(outputs, 0, 1)
+
     if inverse:
         outputs = outputs * (right - left) + left
         logabsdet = logabsdet - math.log((top - bottom) / (right - left))
